@@ -107,8 +107,9 @@ class extract_visitor(NodeVisitor):
         elif node.value:
             name.flow = self.flow  # type: ignore[attr-defined]
             self.flow.add_name(AssignedName(name.id, eend, np(name), node.value))
-        else:
+        elif getattr(node, 'simple', 1):
             # `x: T` binds nothing but makes x a variable of this scope
+            # (`(x): T` does not: the compiler only evaluates the annotation)
             self.flow.mark_local(name.id)
         self.generic_visit(node)
 
